@@ -84,6 +84,9 @@ pub struct Opts {
     pub source: SourceKind,
     /// chromosomes must be sorted (InputSortType::ALL / allow_out_of_order_chroms = false)
     pub sorted_chroms: bool,
+    /// text sources: the rendered text ends without a final newline
+    #[serde(default)]
+    pub no_final_newline: bool,
 }
 
 impl Default for Opts {
@@ -99,6 +102,7 @@ impl Default for Opts {
             multipass: false,
             source: SourceKind::Infallible,
             sorted_chroms: true,
+            no_final_newline: false,
         }
     }
 }
